@@ -7,6 +7,20 @@
 #define STEPF SPEC822_STEP
 #define AFTER1 STEPF(g_state, g_la)
 
+#ifdef SAFETY_ONLY
+/* C06 variant: memory safety / termination / frame only, independent of the functional specification */
+int is_822_local(const char *start, const char *end)
+__CPROVER_requires(RANGE_REQ(start, end, MAXLEN) && (start[g_len] == '@' || start[g_len] == 0))
+__CPROVER_assigns()
+__CPROVER_ensures(__CPROVER_return_value <= 0 && __CPROVER_return_value > -EEAV_MAX)
+;
+
+#define EAV_VERIF_LOOP_is_822_local \
+    __CPROVER_assigns(cp, ch, qpair, quote) \
+    __CPROVER_loop_invariant(IN_OBJ(cp, start, end) && (quote==0||quote==1) && (qpair==0||qpair==1) && (quote ==> cp > start)) \
+    __CPROVER_decreases(end - cp)
+
+#else
 int is_822_local(const char *start, const char *end)
 /* the byte at `end` is '@' or NUL at every call site; the folding test reads cp[2] <= end */
 __CPROVER_requires(RANGE_REQ(start, end, MAXLEN) && (start[g_len] == '@' || start[g_len] == 0))
@@ -48,13 +62,19 @@ __CPROVER_ensures(__CPROVER_return_value == -EEAV_LPART_INVALID_FOLDING ==> (g_c
 #define EAV_VERIF_AT_is_822_local_fold \
     g_state = STEPF(g_state, BYTE_AT(cp - 1)); g_cur = BYTE_AT(cp); g_state = STEPF(g_state, g_cur); g_pos += 2; g_la = LA_AT(cp + 1, end);
 
+#endif
+
 #include <src/is_822_local.c>
 
 void harness(void)
 {
     const char *s, *e;
     int r = is_822_local(s, e);
+#ifndef SAFETY_ONLY
     __CPROVER_assert(!(r == 0 && g_pos == g_len && g_len >= 4), "REACH: accepting exit");
     __CPROVER_assert(!(r != 0 && g_pos == g_len && g_len >= 2), "REACH: rejecting exit at the end");
     __CPROVER_assert(!(r != 0 && g_pos < g_len), "REACH: rejecting exit inside");
+#else
+    __CPROVER_assert(r > 0, "REACH: returns");
+#endif
 }
